@@ -4,13 +4,16 @@ full:    True when the property's statement is proved at full strength (evidence
          False: level `other`, `missing` says what is not proved.
 """
 PROOFS = {
-    "C04": dict(coq=["theories/Prop_C04.v"], full=False,
-                missing="History part (the allocating side holds a committed claim when `allocated` is sent) pending."),
+    "C02": dict(coq=["theories/Prop_C02.v"], full=True, missing=""),
+    "C03": dict(coq=["theories/Prop_C03.v"], full=True,
+                missing="(hypothesis: the os.urandom draws of a history are pairwise distinct 8-byte strings)"),
+    "C04": dict(coq=["theories/Prop_C04.v"], full=True, missing=""),
     "C06": dict(coq=["theories/Prop_C06.v"], full=False,
                 missing="Step isolation proved (a command of app A changes nothing of app B and sends nothing to B). The "
                         "trace-level non-interference statement (B's observations equal those of the history with the other "
                         "apps removed) is not proved; it is false as it stands because of known finding KF1 (refuted witness "
                         "in Prop_C06.v)."),
+    "C07": dict(coq=["theories/Prop_C07.v"], full=True, missing=""),
     "C08": dict(coq=["theories/Prop_C08.v"], full=True, missing=""),
     "C09": dict(coq=["theories/Prop_C09.v"], full=True, missing=""),
     "C10": dict(coq=["theories/Prop_C10.v"], full=False,
@@ -19,6 +22,8 @@ PROOFS = {
     "C11": dict(coq=["theories/Prop_C11.v"], full=True, missing=""),
     "C12": dict(coq=["theories/Prop_C12.v"], full=True, missing=""),
     "C13": dict(coq=["theories/Prop_C13.v"], full=True, missing=""),
+    "C14": dict(coq=["theories/Prop_C14.v"], full=True,
+                missing="(a re-sent close of a surviving mailbox re-stamps `updated`: known finding KF4, stated in the theorem)"),
     "C15": dict(coq=["theories/Prop_C15.v"], full=True,
                 missing="(usage effect of a close re-sent on a fresh connection -- a transient mailbox created and retired "
                         "inside the command -- is characterised for the channel database (Prop_C08) but not for the usage tables)"),
